@@ -269,6 +269,12 @@ func zero(t types.Type) value {
 
 // slice returns x[lo:hi:max].  Any of lo, hi and max may be nil.
 func slice(fr *frame, x, lo, hi, max value) value {
+	if ab, ok := x.(*absBytes); ok {
+		if lo == nil && hi == nil && max == nil {
+			return x // b[:] of an abstract byte string
+		}
+		x = fr.i.p.materialize(fr, ab)
+	}
 	var Len, Cap int
 	switch x := x.(type) {
 	case string:
